@@ -346,6 +346,19 @@ func isLogCall(cc *ssa.CallCommon) bool {
 // apiField reports that the innermost field written belongs to a struct declared in an API package
 // (package-operator.run/apis/..., k8s.io/...): that is object content on its way to the API server.
 func stateRoot(fn *ssa.Function, addr ssa.Value, isMap bool) (root, path string, apiField bool) {
+	root, path, apiField, _ = stateRootOwner(fn, addr, isMap)
+	return
+}
+
+// stateField is one field selection on the way from the root to the written memory.
+type stateField struct {
+	Owner string // named type of the struct that declares the field
+	Name  string
+	Local bool // the struct is a local copy (value receiver): the field itself is not shared memory
+}
+
+// stateRootOwner is stateRoot that also reports the field selections of the path, outermost first.
+func stateRootOwner(fn *ssa.Function, addr ssa.Value, isMap bool) (root, path string, apiField bool, fields []stateField) {
 	var parts []string
 	v := addr
 	shared := isMap
@@ -367,7 +380,7 @@ func stateRoot(fn *ssa.Function, addr ssa.Value, isMap bool) (root, path string,
 	for i := 0; i < 20; i++ {
 		switch x := v.(type) {
 		case *ssa.Global:
-			return "global:" + x.String(), strings.Join(parts, ""), apiField
+			return "global:" + x.String(), strings.Join(parts, ""), apiField, fields
 		case *ssa.FieldAddr:
 			if first {
 				owner := namedTypeString(x.X.Type())
@@ -375,12 +388,14 @@ func stateRoot(fn *ssa.Function, addr ssa.Value, isMap bool) (root, path string,
 				first = false
 			}
 			parts = append([]string{"." + fieldName(x.X.Type(), x.Field)}, parts...)
+			_, local := x.X.(*ssa.Alloc)
+			fields = append([]stateField{{Owner: namedTypeString(x.X.Type()), Name: fieldName(x.X.Type(), x.Field), Local: local}}, fields...)
 			if al, isAlloc := x.X.(*ssa.Alloc); isAlloc {
 				// field of a local struct: only interesting when we already crossed a pointer/slice/map
 				// stored in it (value receiver holding a pointer to shared state)
 				src := singleStore(al)
 				if !shared || src == nil {
-					return "", "", false
+					return "", "", false, nil
 				}
 				v = src
 				continue
@@ -389,13 +404,14 @@ func stateRoot(fn *ssa.Function, addr ssa.Value, isMap bool) (root, path string,
 			v = x.X
 		case *ssa.Field:
 			parts = append([]string{"." + fieldName(x.X.Type(), x.Field)}, parts...)
+			fields = append([]stateField{{Owner: namedTypeString(x.X.Type()), Name: fieldName(x.X.Type(), x.Field), Local: true}}, fields...)
 			v = x.X
 		case *ssa.IndexAddr:
 			parts = append([]string{"[i]"}, parts...)
 			if _, isSlice := x.X.Type().Underlying().(*types.Slice); isSlice {
 				shared = true
 			} else if _, isAlloc := x.X.(*ssa.Alloc); isAlloc {
-				return "", "", false
+				return "", "", false, nil
 			}
 			v = x.X
 		case *ssa.Lookup:
@@ -406,13 +422,13 @@ func stateRoot(fn *ssa.Function, addr ssa.Value, isMap bool) (root, path string,
 			v = x.X
 		case *ssa.UnOp:
 			if x.Op != token.MUL {
-				return "", "", false
+				return "", "", false, nil
 			}
 			switch a := x.X.(type) {
 			case *ssa.Alloc:
 				src := singleStore(a)
 				if src == nil {
-					return "", "", false
+					return "", "", false, nil
 				}
 				v = src
 			case *ssa.FreeVar:
@@ -435,11 +451,11 @@ func stateRoot(fn *ssa.Function, addr ssa.Value, isMap bool) (root, path string,
 				}
 				al, ok := bound.(*ssa.Alloc)
 				if !ok {
-					return "", "", false
+					return "", "", false, nil
 				}
 				src := singleStore(al)
 				if src == nil {
-					return "", "", false
+					return "", "", false, nil
 				}
 				fn, v = par, src
 			default:
@@ -447,14 +463,14 @@ func stateRoot(fn *ssa.Function, addr ssa.Value, isMap bool) (root, path string,
 			}
 		case *ssa.Parameter:
 			if shared && fn.Signature.Recv() != nil && len(fn.Params) > 0 && fn.Params[0] == x {
-				return "recv:" + namedTypeString(x.Type()), strings.Join(parts, ""), apiField
+				return "recv:" + namedTypeString(x.Type()), strings.Join(parts, ""), apiField, fields
 			}
-			return "", "", false
+			return "", "", false, nil
 		default:
-			return "", "", false
+			return "", "", false, nil
 		}
 	}
-	return "", "", false
+	return "", "", false, nil
 }
 
 // ---------------------------------------------------------------------------------------------
@@ -662,7 +678,6 @@ var c10StateTable = map[string]string{
 	"internal/dynamiccache.InformerMap.informers":                             "mutex-guarded informer registry of the dynamic cache (C12)",
 	"internal/dynamiccache.cacheSource.settings":                              "event-source registry filled while controllers are wired, before the manager starts",
 	"internal/dynamiccache.cacheSource.handlers":                              "event-handler registry of the dynamic cache, filled when sources start",
-	"internal/dynamiccache.cacheSettings.source":                              "event-handler registry of the dynamic cache (cacheSource.handlers through the settings value)",
 	"internal/dynamiccache.EnqueueWatchingObjects.groupKind":                  "computed once by the constructor from the watcher's Go type",
 	"internal/environment.Manager.sinks":                                      "wiring of environment sinks at process start",
 	"internal/environment.Sink.env":                                           "environment sink: last probed cluster environment, re-probed periodically and on start; an input of rendering, not progress",
@@ -670,6 +685,48 @@ var c10StateTable = map[string]string{
 	"internal/controllers.recordingProbe.failures":                            "accumulator of a recordingProbe value that newRecordingProbe creates anew in every ReconcilePhase pass",
 	"internal/controllers/objectdeployments.objectSetsByRevisionAscending[i]": "sort.Interface over the revision slice listed in this pass",
 	"internal/packages/internal/packagerender.phaseCollector":                 "map built by newPhaseCollector for a single render",
+}
+
+// c10RenamedTypeEntry: key "pkg.T.field" is not in the table, but exactly one table entry
+// "pkg.Old.field" of the same package and field names a type Old that no longer exists in the
+// package, while T has no table entry of its own: the declaring type was renamed. The entry keeps
+// describing the same field of the same package; a new piece of state (a new field, or a field of a
+// type that sits next to the recorded ones) does not match.
+func c10RenamedTypeEntry(p *Program, key string) (old, why string, ok bool) {
+	split := func(k string) (pkg, typ, field string, ok bool) {
+		i := strings.LastIndex(k, "/")
+		rest := k[i+1:]
+		parts := strings.SplitN(rest, ".", 3)
+		if len(parts) != 3 || strings.ContainsAny(parts[2], ".[") {
+			return "", "", "", false
+		}
+		return k[:i+1] + parts[0], parts[1], parts[2], true
+	}
+	pkg, typ, field, okk := split(key)
+	if !okk {
+		return "", "", false
+	}
+	pk := p.ByPath[modPKO+"/"+pkg]
+	if pk == nil || pk.Types == nil {
+		return "", "", false
+	}
+	var cands []string
+	for k := range c10StateTable {
+		kp, kt, kf, okk := split(k)
+		if !okk || kp != pkg {
+			continue
+		}
+		if kt == typ {
+			return "", "", false // the type is known under this name: this is a different field of it
+		}
+		if kf == field && pk.Types.Scope().Lookup(kt) == nil {
+			cands = append(cands, k)
+		}
+	}
+	if len(cands) != 1 {
+		return "", "", false
+	}
+	return cands[0], c10StateTable[cands[0]], true
 }
 
 func c10r3(c *Ctx) {
@@ -682,7 +739,7 @@ func c10r3(c *Ctx) {
 				if addr == nil {
 					continue
 				}
-				root, path, api := stateRoot(fn, addr, kind != "store")
+				root, path, api, fields := stateRootOwner(fn, addr, kind != "store")
 				if root == "" || api {
 					continue // local memory, or content of an API object on its way to the API server
 				}
@@ -693,10 +750,22 @@ func c10r3(c *Ctx) {
 				key := strings.TrimPrefix(strings.TrimPrefix(root, "recv:"), modPKO+"/") + first
 				if strings.HasPrefix(root, "global:") {
 					key = strings.TrimPrefix(strings.TrimPrefix(root, "global:"), modPKO+"/")
+				} else if len(fields) > 0 && fields[0].Local {
+					// value receiver: the leading fields live in the local copy of the receiver; the memory that
+					// outlives the activation is the first field reached through a pointer — key by the struct
+					// that declares it (`e.source.handlers` writes cacheSource.handlers, whatever the wrapper is called)
+					for _, sf := range fields {
+						if !sf.Local && sf.Owner != "" {
+							key = strings.TrimPrefix(sf.Owner, modPKO+"/") + "." + sf.Name
+							break
+						}
+					}
 				}
 				o := c.Ob(fn, kind+"-"+key, in, c.rule.Statement)
 				if why, ok := c10StateTable[key]; ok {
 					o.OK("table: " + why)
+				} else if old, why, ok := c10RenamedTypeEntry(p, key); ok {
+					o.OK("table (type of entry " + old + " was renamed): " + why)
 				} else {
 					o.Require("a frozen-table entry for " + key)
 					o.Fail("%s of %s%s on a reconcile path (reachable: %s) writes state that outlives the reconcile and is not in the frozen table: progress kept only in memory is lost on restart", kind, root, path, pathTo(s.via, fn))
@@ -718,10 +787,14 @@ func c10r3(c *Ctx) {
 		if pc == nil || !isCallTo(pc.Common(), pkgClient+".RawPatch") || len(pc.Common().Args) != 2 {
 			continue
 		}
+		// the patch body may be built by an extracted helper (`patchJSON, err := finalizersPatchJSON(obj)`):
+		// look through the results of inlinable helpers and map the helper's parameters back to the
+		// arguments of this call
 		var body ssa.Value
-		for _, bv := range p.possibleValues(pc.Common().Args[1]) {
-			if mc, idx := asCall(bv); mc != nil && idx == 0 && isCallTo(mc.Common(), "encoding/json.Marshal") {
-				body = mc.Common().Args[0]
+		var via []*ssa.Call
+		for _, bv := range p.possibleValuesXC(pc.Common().Args[1]) {
+			if mc, idx := asCall(bv.V); mc != nil && idx == 0 && isCallTo(mc.Common(), "encoding/json.Marshal") {
+				body, via = mc.Common().Args[0], bv.Via
 			}
 		}
 		top, ok := mapLiteral(body)
@@ -744,7 +817,7 @@ func c10r3(c *Ctx) {
 			continue
 		}
 		rc, _ := asCall(rv)
-		if rc == nil || calleeName(rc.Common()) != "GetResourceVersion" || !p.sameValue(callRecv(rc.Common()), ws.Obj) {
+		if rc == nil || calleeName(rc.Common()) != "GetResourceVersion" || !p.sameValue(upCalls(callRecv(rc.Common()), via), ws.Obj) {
 			o.Fail("metadata.resourceVersion is %s, not GetResourceVersion() of the patched object %s", p.describe(rv), p.describe(ws.Obj))
 			continue
 		}
